@@ -1225,3 +1225,362 @@ def tph_config_request_eval(names, value):
         return fails
     finally:
         srv.close()
+
+
+# =============================================================================
+# C15 end to end, from request BYTES (appended).
+#
+# real:  HTTPRequestParser(server.adj).received(...)  ->  WSGITask(channel, parser).execute()
+#        which builds the environ (get_environment) and calls channel.server.application, i.e.
+#        the application as BaseWSGIServer.__init__ wrapped it (proxy_headers_middleware or not)
+# model: ocaml/c15e2e/runner (Extract/ExtC15e2e.v): Parser.received -> get_environment ->
+#        str_view -> serve, the composition the theorems C15_e2e_* of Props/C15.v are about.
+# =============================================================================
+
+E2E_MH, E2E_MB = 262144, 1073741824
+E2E_NAMES = ["x-forwarded-for", "x-forwarded-host", "x-forwarded-proto", "x-forwarded-port", "x-forwarded-by", "forwarded"]
+E2E_NEAR = ["X-Forwarded-Fo", "X-Forwarded-For2", "Forwarded-For", "X-Forwarded", "XForwardedFor", "X-Forwarded-Server",
+            "X-Real-Ip", "Forwarded-", "-Forwarded", "X--Forwarded-For", "Remote-Addr", "Server-Name", "Server-Port",
+            "Remote-Host", "Wsgi.Url-Scheme", "Url-Scheme", "Http-Host", "Http-X-Forwarded-For"]
+E2E_PEERS = [("10.9.8.7", 4711), ("10.9.8.7", 0), ("::1", 80, 0, 0), ("localhost", None), ("172.16.0.9", 5), ("203.0.113.9", 65535),
+             ("10.9.8.70", 1), ("172.16.0.90", 443)]     # the last two: addresses that only BEGIN like the trusted proxies of checks/C15.py
+_FIELD_OK = re.compile(rb"[\t \x21-\x7e\x80-\xff]*\Z")
+
+
+class _E2EChannel:
+    """what WSGITask reads of a channel; write_soon collects the response bytes"""
+    closed_when_done = False
+    creation_time = 0
+
+    def __init__(self, server, addr):
+        self.server = server
+        self.adj = server.adj
+        self.addr = addr
+        self.out = []
+
+    def write_soon(self, data):
+        if isinstance(data, (bytes, bytearray)):
+            self.out.append(bytes(data))
+            return len(data)
+        return 0
+
+    def check_client_disconnected(self):
+        return False
+
+
+class E2EServer:
+    """the real server object (create_server with a dummy socket): server.application is whatever
+    BaseWSGIServer.__init__ installed around RealServerApp's recording application (which keeps a
+    shallow copy of the environ it is called with)"""
+
+    def __init__(self, **kw):
+        self.kw = dict(kw)
+        self.srv = RealServerApp(**kw)
+        self.server = self.srv.server
+        self.cfg = self.srv.cfg
+        self.seen = self.srv.seen
+
+    def ctx_words(self, addr):
+        from lib.vcommon import hexb
+        adj = self.server.adj
+        port = self.server.effective_port
+        pw = ("i%d" % port) if isinstance(port, int) else ("s" + hexb(str(port).encode("latin-1")))
+        peerw = "u" if addr[1] is None else "t%s:%d" % (hexb(addr[0].encode("latin-1")), addr[1])
+        return [hexb(adj.url_scheme.encode("latin-1")), hexb(adj.url_prefix.encode("latin-1")),
+                hexb(self.server.server_name.encode("latin-1")), pw, hexb(adj.ident.encode("latin-1")), peerw]
+
+    def close(self):
+        self.srv.close()
+
+
+def e2e_model_cmd(es, addr, chunks):
+    from lib.vcommon import hexb
+    return "e2e %d %d %s %s %s" % (E2E_MH, E2E_MB, " ".join(es.ctx_words(addr)), cfg_words(es.cfg),
+                                   " ".join(hexb(c) for c in chunks))
+
+
+def _e2e_unval(w):
+    if w.startswith("u"):
+        return "".join(chr(int(x)) for x in w[1:].split(",") if x)
+    return unhx(w)
+
+
+def e2e_parse_model(line):
+    """-> ('ok', served dict, pre dict) | ('mal', hdr) | ('exn', name) | (status,)"""
+    w = line.split(" ")
+    if w[0] == "ok":
+        i = w.index("|")
+        a, b = w[1:i], w[i + 2:]
+        return ("ok", {_e2e_unval(a[j]): _e2e_unval(a[j + 1]) for j in range(0, len(a), 2)},
+                {_e2e_unval(b[j]): _e2e_unval(b[j + 1]) for j in range(0, len(b), 2)})
+    if w[0] == "mal":
+        return ("mal", unhx(w[1]))
+    if w[0] == "exn":
+        return ("exn", w[1])
+    return (line,)
+
+
+def real_e2e(es, addr, chunks):
+    """-> ('ok', served str entries, task's str entries before the call, problems) | ('mal', hdr) | ('exn', name) | (status,)"""
+    from harness import environ as EV
+    from waitress.task import WSGITask
+
+    p, status = EV.real_parse(es.server.adj, chunks)
+    if status != "ok":
+        return (status,)
+    ch = _E2EChannel(es.server, addr)
+    task = WSGITask(ch, p)
+    try:
+        full = task.get_environment()
+        pre = {k: v for k, v in full.items() if isinstance(v, str)}
+        nonstr = {k: v for k, v in full.items() if not isinstance(v, str)}
+        es.seen.pop("env", None)
+        try:
+            task.execute()
+        except Exception as ex:
+            return ("exn", type(ex).__name__)
+        got = es.seen.pop("env", None)
+        if got is None:
+            body = b"".join(ch.out)
+            m = re.search(rb'Header "(.*)" malformed\.', body, re.S)
+            if body.startswith(b"HTTP/1.") and b" 400 " in body.split(b"\r\n", 1)[0] and m:
+                return ("mal", m.group(1).decode("utf-8"))
+            return ("other:" + body[:60].decode("latin-1"),)
+        problems = []
+        for k, v in nonstr.items():
+            if k not in got or got[k] is not v:
+                problems.append("non-str entry %s was replaced or removed on the way to the application" % k)
+        for k, v in got.items():
+            if not isinstance(v, str) and k not in nonstr:
+                problems.append("non-str entry %s appeared on the way to the application" % k)
+        return ("ok", {k: v for k, v in got.items() if isinstance(v, str)}, pre, problems)
+    finally:
+        p.close()
+
+
+# ---- an independent reading of the header lines (Python, from the generated logical lines) ----
+
+def e2e_expected_key(lines, lname):
+    """value the environ key of header `lname` ("x-forwarded-for", "host") must have, from the logical
+    header lines [(name bytes, value bytes)]: names compared ASCII case-insensitively, no "_" in the name,
+    values stripped of SP/HTAB, obs-fold CRLF removed, joined by ", " -> str | None"""
+    vals = []
+    for n, v in lines:
+        if b"_" in n:
+            continue
+        if n.decode("latin-1").lower() == lname:      # header names are ASCII tokens
+            vals.append(v.replace(b"\r\n", b"").strip(b" \t").decode("latin-1"))
+    return ", ".join(vals) if vals else None
+
+
+def e2e_is_proxy_name(n):
+    return b"_" not in n and n.decode("latin-1").lower() in E2E_NAMES
+
+
+# ---- generators ------------------------------------------------------------------------------
+
+def _e2e_value(rng, kind, p_degen):
+    env = {}
+    gen_headers(rng, env, p_degen, which=frozenset([kind]))
+    v = env.get(KIND_KEY[kind])
+    if v is None:
+        v = rng.choice(["6.6.6.6", "evil.example:1", "https", "1", "for=6.6.6.6;host=evil.example;proto=https", "", '"', ":80"])
+    return v
+
+
+def _e2e_spelling(rng, name):
+    """-> (bytes name, 'dash' | 'underscore')"""
+    r = rng.random()
+    if r < 0.55:
+        s = _spell(rng, name, rng.choice(["lower", "title", "upper", "first", "random"]))
+        return s.encode("latin-1"), "dash"
+    s = _spell(rng, name, rng.choice(["lower", "title", "upper", "random"]))
+    if "-" not in s:                       # "forwarded": no dash to replace; an underscore elsewhere
+        s = rng.choice(["_" + s, s + "_", s[:3] + "_" + s[3:]])
+    elif rng.random() < 0.6:
+        s = s.replace("-", "_")
+    else:
+        i = rng.choice([j for j, c in enumerate(s) if c == "-"])
+        s = s[:i] + "_" + s[i + 1:]
+    return s.encode("latin-1"), "underscore"
+
+
+def gen_e2e_case(rng):
+    """-> dict(with_=raw bytes, without=raw bytes (proxy lines deleted), without_all=raw bytes (proxy and
+    underscore lines deleted), lines=[(name, value)] logical lines of with_, body_kind, ...)"""
+    method = rng.choice([b"GET", b"GET", b"POST", b"PUT", b"HEAD"])
+    target = rng.choice([b"/", b"/p?q=1", b"/p/q/r", b"//x//y", b"/a%20b?x=%41", b"http://front.example:81/abs?z", b"*", b"/p"])
+    version = rng.choice([b"HTTP/1.1", b"HTTP/1.1", b"HTTP/1.1", b"HTTP/1.0"])
+    base = []
+    r = rng.random()
+    if r < 0.8:
+        base.append((rng.choice([b"Host", b"host", b"HOST", b"hOsT"]),
+                     rng.choice([b"front.example", b"front.example:8080", b"  front.example\t", b"", b"[::1]:80", b"evil, other"])))
+    for _ in range(rng.choice([0, 1, 1, 2, 3])):
+        nm = rng.choice([b"User-Agent", b"Accept", b"X-Foo", b"x-foo", b"X_Foo", b"Cookie", b"Connection", b"X-Foo-Bar"] +
+                        [n.encode() for n in E2E_NEAR])
+        if nm == b"Connection":
+            val = rng.choice([b"close", b"keep-alive"])
+        else:
+            val = rng.choice([b"a", b"a b", b"\xe9t\xe9", b"", b"1.2.3.4", b"https", b"x\r\n y", b" padded\t"])
+        base.append((nm, val))
+    body_kind = rng.choice(["none", "none", "none", "cl", "chunked"]) if method in (b"POST", b"PUT") else "none"
+    body = b""
+    if body_kind == "cl":
+        data = bytes(rng.randrange(256) for _ in range(rng.choice([1, 5, 40])))
+        base.append((rng.choice([b"Content-Length", b"content-length"]), str(len(data)).encode()))
+        body = data
+    elif body_kind == "chunked" and version == b"HTTP/1.1":
+        data = bytes(rng.randrange(256) for _ in range(rng.choice([1, 7, 33])))
+        base.append((b"Transfer-Encoding", b"chunked"))
+        body = ("%x" % len(data)).encode() + b"\r\n" + data + b"\r\n0\r\n\r\n"
+    else:
+        body_kind = "none"
+    # the hostile lines
+    hostile = []
+    p_degen = rng.choice([0.0, 0.05, 0.3, 0.6])
+    for name in E2E_NAMES:
+        n = rng.choice([0, 0, 1, 1, 1, 2, 3])
+        for _ in range(n):
+            nm, sp = _e2e_spelling(rng, name)
+            v = _e2e_value(rng, name, p_degen)
+            if rng.random() < 0.15:
+                v = rng.choice(["", " ", "\t", "  \t "])                 # empty / blank values
+            vb = v.encode("latin-1", "replace")
+            if not _FIELD_OK.match(vb):
+                vb = bytes(c for c in vb if c == 9 or c >= 32 and c != 127)
+            if rng.random() < 0.1 and vb:
+                i = rng.randrange(len(vb) + 1)
+                vb = vb[:i] + b"\r\n" + rng.choice([b" ", b"\t", b"  "]) + vb[i:]      # obs-fold inside the value
+            hostile.append((nm, vb))
+    lines = list(base)
+    for h in hostile:
+        lines.insert(rng.randint(0, len(lines)), h)
+    # the very first header line must not be a continuation; a value beginning with CRLF SP is fine after "Name:"
+    def render(ls):
+        head = method + b" " + target + b" " + version + b"\r\n"
+        for n, v in ls:
+            head += n + b":" + rng_pad + v + b"\r\n"
+        return head + b"\r\n" + body
+    rng_pad = rng.choice([b" ", b" ", b"", b"\t", b"  "])
+    wo = [(n, v) for n, v in lines if not e2e_is_proxy_name(n)]
+    wo_all = [(n, v) for n, v in wo if b"_" not in n]
+    return {"with": render(lines), "without": render(wo), "without_all": render(wo_all), "lines": lines,
+            "pad": rng_pad, "body_kind": body_kind, "version": version.decode(),
+            "n_dash": sum(1 for n, _ in lines if e2e_is_proxy_name(n)),
+            "n_underscore": sum(1 for n, _ in hostile if b"_" in n)}
+
+
+def e2e_directed():
+    """hand-written requests: every spelling class once, empty values, duplicates"""
+    out = []
+    H = b"GET / HTTP/1.1\r\nHost: front.example\r\n"
+    for hl in (b"X-Forwarded-For: 6.6.6.6", b"X_Forwarded_For: 6.6.6.6", b"x_forwarded_for: 6.6.6.6", b"X-Forwarded_For: 6.6.6.6",
+               b"X-FORWARDED-FOR:6.6.6.6", b"X-Forwarded-For:", b"X-Forwarded-For: \t ", b"Forwarded: for=6.6.6.6;proto=https;host=evil",
+               b"Forwarded:", b"_Forwarded: for=1.1.1.1", b"X-Forwarded-Host: evil.example:444", b"X-Forwarded-Host:",
+               b"X-Forwarded-Proto: https", b"X-Forwarded-Proto:", b"X-Forwarded-Port: 444", b"X-Forwarded-Port:",
+               b"X-Forwarded-By: 1.1.1.1", b"X-Forwarded-By:", b"X-Forwarded-For: 1\r\nX-Forwarded-For: 2\r\nx-forwarded-for:",
+               b"X-Forwarded-For: 1\r\n\t2", b"X-Forwarded-For: \xe9\xff", b"X_Forwarded_Proto: https\r\nX-Forwarded-Proto: ftp",
+               b"Remote-Addr: 6.6.6.6\r\nServer-Name: evil\r\nServer-Port: 1\r\nRemote-Host: evil\r\nRemote-Port: 1"):
+        out.append((H + hl + b"\r\n\r\n", H + b"\r\n"))
+    return out
+
+
+# ---- evaluation of one generated pair on the REAL code (shared by run and replay) ------------
+
+def e2e_is_untrusted(es, addr):
+    return es.cfg.tp != "*" and es.cfg.tp != addr[0]
+
+
+def e2e_ctx_expected(es, addr):
+    adj = es.server.adj
+    return {"REMOTE_ADDR": addr[0], "REMOTE_HOST": addr[0], "REMOTE_PORT": str(addr[1]),
+            "SERVER_NAME": es.server.server_name, "SERVER_PORT": str(es.server.effective_port),
+            "wsgi.url_scheme": adj.url_scheme}
+
+
+def e2e_eval_real(es, addr, chunks3, lines, reals=None):
+    """chunks3: {'with': [bytes..], 'without': [...], 'without_all': [...]}; lines: logical lines of 'with'.
+    -> (fails, reals)  fails: list of str (empty = the end-to-end statement holds on this pair)"""
+    if reals is None:
+        reals = {w: real_e2e(es, addr, chunks3[w]) for w in ("with", "without", "without_all")}
+    fails = []
+    st = {w: reals[w][0] for w in reals}
+    if st["with"] != "ok" or st["without"] != "ok" or st["without_all"] != "ok":
+        if not e2e_is_untrusted(es, addr):
+            return fails, reals             # a trusted peer's headers may be refused (C16)
+        if len(set(st.values())) > 1 or st["with"] in ("exn", "mal") or st["with"].startswith("other"):
+            fails.append("request of an untrusted peer not handed to the application alike: with=%s without=%s without(all)=%s"
+                         % (st["with"], st["without"], st["without_all"]))
+        return fails, reals
+    exp_proxy = {KIND_KEY[n]: e2e_expected_key(lines, n) for n in E2E_NAMES}
+    exp_host = e2e_expected_key(lines, "host")
+    # (1) the task's environ, whoever the peer is
+    pre = reals["with"][2]
+    for k, want in exp_proxy.items():
+        if pre.get(k) != want:
+            fails.append("task environ: %s is %r, the '-'-spelled header lines say %r (underscore spellings must not count)" % (k, pre.get(k), want))
+    for w in ("without", "without_all"):
+        for k in PROXY_KEYS:
+            if k in reals[w][2]:
+                fails.append("task environ of the request without proxy header lines has %s=%r" % (k, reals[w][2][k]))
+    ctxv = e2e_ctx_expected(es, addr)
+    for w in ("with", "without", "without_all"):
+        p = reals[w][2]
+        for k, want in ctxv.items():
+            if p.get(k) != want:
+                fails.append("task environ (%s): %s is %r, the connection/server context says %r" % (w, k, p.get(k), want))
+        if p.get("HTTP_HOST") != exp_host:
+            fails.append("task environ (%s): HTTP_HOST is %r, the Host line says %r" % (w, p.get("HTTP_HOST"), exp_host))
+        for pr in reals[w][3]:
+            fails.append("%s (%s)" % (pr, w))
+    if not e2e_is_untrusted(es, addr):
+        return fails, reals
+    # (2) what the application is called with
+    a = reals["with"][1]
+    for w in ("with", "without", "without_all"):
+        o = reals[w][1]
+        for k, want in ctxv.items():
+            if o.get(k) != want:
+                fails.append("application (%s): %s is %r, the connection/server context says %r" % (w, k, o.get(k), want))
+        if o.get("HTTP_HOST") != exp_host:
+            fails.append("application (%s): HTTP_HOST is %r, the Host line says %r" % (w, o.get("HTTP_HOST"), exp_host))
+        if w != "with":
+            for k in set(a) | set(o):
+                if k not in PROXY_KEYS and a.get(k) != o.get(k):
+                    fails.append("%s differs: %r with the proxy header lines, %r %s them" % (k, a.get(k), o.get(k), w.replace("_", " ")))
+        if es.cfg.clear:
+            for k in PROXY_KEYS:
+                if k in o:
+                    fails.append("%s=%r reached the application (%s) although clearing is on" % (k, o[k], w))
+        else:
+            for k in PROXY_KEYS:
+                want = exp_proxy[k] if w == "with" else None
+                if o.get(k) != want:
+                    fails.append("application (%s): %s is %r, expected %r (clearing off: exactly what the '-'-spelled lines say)" % (w, k, o.get(k), want))
+    return fails, reals
+
+
+def e2e_real_canon(r):
+    if r[0] == "ok":
+        return ("ok", r[1], r[2])
+    return tuple(r[:2])
+
+
+def e2e_logical_line(n, v, pad):
+    """a generated header line as get_header_lines hands it on (fold CRLF removed)"""
+    return (n + b":" + pad + v).replace(b"\r\n", b"")
+
+
+def e2e_split(rng, raw):
+    """a random segmentation into 1..3 pieces"""
+    r = rng.random()
+    if r < 0.5 or len(raw) < 4:
+        return [raw]
+    cuts = sorted(rng.sample(range(1, len(raw)), 1 if r < 0.8 else 2))
+    out, last = [], 0
+    for c in cuts:
+        out.append(raw[last:c])
+        last = c
+    out.append(raw[last:])
+    return out
